@@ -947,7 +947,7 @@ fn exec_set(cx: &mut Ctx, t: &mut Set, ops: &[Op], base: usize) -> Result<(), Fa
 impl World for C17World {
     const PROP: &'static str = "C17";
 
-    fn generate(seed: u64, tier: Tier) -> Self {
+    fn generate(seed: u64, _index: u64, tier: Tier) -> Self {
         let mut r = Rng::stream(seed, "workload");
         let set = r.chance(1, 3);
         let big = if tier == Tier::Thorough { 20000 } else { 3000 };
